@@ -124,10 +124,20 @@ def rule_r1(ck, prog, cls, ty='double', rule='C07.R1'):
             ('param', f.params[0]['name']) in lv and any(l[0] == 'field' and l[1].endswith(fld) for l in lv)
         ck.verdict(ok, rule, f, fld + ':' + fn + '-of-old-and-value', n, '%s = %s(%s, value) under record_min_max_' % (fld, fn, fld) if ok else
                    '%s is not updated as %s(old, value) under the record_min_max flag' % (fld, fn))
-    # nothing but the min/max update may depend on the flag: no early exit on it
-    rets = [p for p in g.points if p.n is not None and p.n['k'] == 'return']
-    ck.verdict(not rets, rule, f, 'no-early-return', rets[0].n if rets else None, 'straight-line update' if not rets else
-               'Aggregate has an early return: values recorded on that path are missing from count, sum or the buckets')
+    # with the flag set both extremes are updated on every path (count, sum and bucket are covered by the once-per-path obligations
+    # above, so an early return after them is harmless)
+    def rmm_true(a, b, lab):
+        if not lab or not isinstance(lab[0], int):
+            return False
+        core, pol = norm_cond(lab[1], lab[0])
+        if access_path(lab[1], core, a.ctx)[-1:] == ('record_min_max_',):
+            return (lab[2] if pol else not lab[2]) is True
+        return False
+    starts = [q for p in g.points for (q, lab) in p.succ if rmm_true(p, q, lab)]
+    skipped = [fld for fld in ('min_', 'max_') if starts and g.exit.id in g.reachable_from(starts, avoid=writes(fld))]
+    ck.verdict(bool(starts) and not skipped, rule, f, 'flag-set=>both-extremes-updated', starts[0].n if starts else None,
+               'behind the record_min_max edge every path updates min_ and max_' if starts and not skipped else
+               'with record_min_max set a path through Aggregate leaves %s untouched: the reported extreme is not the smallest / largest recorded value' % (', '.join(skipped) or 'min_/max_'))
 
 
 def _comparator_in_double(prog, f, arg):
